@@ -11,12 +11,65 @@ import ast, hashlib, os, sys
 class Unsupported(Exception): pass
 U = ast.unparse
 
+def strip(stmts):
+    return [s for s in stmts if not (isinstance(s, ast.Expr) and isinstance(s.value, ast.Constant)) and not isinstance(s, ast.Assert)
+            and not (isinstance(s, ast.Expr) and isinstance(s.value, ast.Call) and (U(s.value.func).startswith("_log.") or U(s.value.func) == "pb.update"))]
+
+def translate_users(src_root):
+    """splitting/users.py: `_make_split` (hold out `method(row)` for every test user; training = the records whose (user, item) pair was
+    not held out, or nothing) and `crossfold_users` (one split per part of the shuffled user positions)"""
+    rel = "splitting/users.py"; src = open(os.path.join(src_root, rel)).read(); mod = ast.parse(src); segs = []
+    fn, b = body_of(mod, "_make_split"); segs.append(ast.get_source_segment(src, fn))
+    if [a.arg for a in fn.args.args] + [a.arg for a in fn.args.kwonlyargs] != ["data", "df", "test_us", "method", "test_only"]: raise Unsupported("_make_split parameters")
+    if len(b) != 6 or not isinstance(b[1], ast.With) or not isinstance(b[4], ast.If): raise Unsupported("_make_split: unexpected statement sequence")
+    expect([b[0], b[2], b[3], b[5]], ["test = ItemListCollection(UserIDKey)", "train_build = DatasetBuilder(data)", "iname = data.default_interaction_class()",
+                                      "return TTSplit(train_build.build(), test)"], "_make_split")
+    wb = strip(b[1].body)
+    if len(wb) != 1 or not isinstance(wb[0], ast.For) or U(wb[0].target) != "u" or U(wb[0].iter) != "test_us": raise Unsupported("_make_split: the loop over the test users")
+    expect(strip(wb[0].body), ["row = data.user_row(u)", "u_test = method(row)", "test.add(u_test, u)"], "_make_split loop")
+    if U(b[4].test) != "test_only": raise Unsupported("_make_split: the `if test_only` step")
+    expect(b[4].body, ["train_build.clear_relationships(iname)"], "_make_split (test only)")
+    expect(b[4].orelse, ["test_tbl = test.to_df()[['user_id', 'item_id']]", "train_build.filter_interactions(iname, remove=test_tbl)"], "_make_split (training records)")
+    fn, b = body_of(mod, "crossfold_users"); segs.append(ast.get_source_segment(src, fn))
+    loops = [s for s in b if isinstance(s, ast.For)]
+    if len(loops) != 1: raise Unsupported("crossfold_users: one loop expected")
+    k = b.index(loops[0])
+    expect(b[:k], ["rng = random_generator(rng)", "users = data.users.ids()", "rows = np.arange(len(users))", "rng.shuffle(rows)", "test_sets = np.array_split(rows, partitions)",
+                   "df = data.interaction_matrix(format='pandas', original_ids=True)"], "crossfold_users")
+    if U(loops[0].target) != "(i, ts)" or U(loops[0].iter) != "enumerate(test_sets)" or b[k + 1:]: raise Unsupported("crossfold_users: loop header")
+    expect(strip(loops[0].body), ["test_us = users[ts]", "yield _make_split(data, df, test_us, method, test_only=test_only)"], "crossfold_users loop")
+    text = ("""/-- `_make_split`: `method` picks the held-out part of a user's row; the training records are those whose (user, item) pair was not
+    held out — or none, when only the test data is wanted -/
+def makeSplitT {β} (recs : List (IRec β)) (test_us : List Nat) (method : Nat → List (IRec β) → List (IRec β)) (test_only : Bool) :
+    List (Nat × List (IRec β)) × List (IRec β) :=
+  let test := test_us.map (fun u =>
+    let row := rowOf recs u
+    let u_test := method u row
+    (u, u_test))
+  let train_build := recs          -- DatasetBuilder(data)
+  let train_build :=
+    if test_only then []
+    else
+      let test_tbl := test.flatMap (fun ut => ut.2.map (fun r => (r.u, r.i)))
+      train_build.filter (fun r => !test_tbl.contains (r.u, r.i))
+  (test, train_build)
+
+/-- `crossfold_users`: `perm` is the shuffled array of user positions; one split per part -/
+def crossfoldUsersT {β} (recs : List (IRec β)) (users : List Nat) (perm : List Nat) (partitions : Nat)
+    (method : Nat → List (IRec β) → List (IRec β)) (test_only : Bool) : List (List (Nat × List (IRec β)) × List (IRec β)) :=
+  let rows := perm
+  let test_sets := arraySplit rows partitions
+  test_sets.map (fun ts =>
+    let test_us := ts.map (fun j => users.getD j 0)
+    makeSplitT recs test_us method test_only)
+""")
+    return text, "\n".join(segs), rel
+
 def body_of(mod, name):
     fns = [f for f in mod.body if isinstance(f, ast.FunctionDef) and f.name == name]
     if not fns: raise Unsupported(f"{name} not found")
     fn = fns[-1]
-    return fn, [s for s in fn.body if not (isinstance(s, ast.Expr) and isinstance(s.value, ast.Constant))
-                and not (isinstance(s, ast.Expr) and isinstance(s.value, ast.Call) and U(s.value.func).startswith("_log."))]
+    return fn, strip(fn.body)
 
 def expect(stmts, texts, where):
     got = [U(s) for s in stmts]
@@ -76,11 +129,12 @@ def disjointSamplesT (perm : List Nat) (size reps : Nat) : List (List Nat) :=
     let end_ := start + size
     pySlice xs start end_)
 """)
-    seg = "\n".join(segs)
+    utext, useg, urel = translate_users(src_root)
+    seg = "\n".join(segs) + "\n" + useg
     return ("import LK.Model.SplitOps\n/-! GENERATED by translate/py2lean_split.py on every run of `./check C05`; do not edit.\n"
-            f"* `makePairT`, `crossfoldRecordsT`, `disjointSamplesT` ← {rel} _make_pair, crossfold_records, _disjoint_samples, source sha256/64 {hashlib.sha256(seg.encode()).hexdigest()[:16]}\n"
+            f"* `makePairT`, `crossfoldRecordsT`, `disjointSamplesT` ← {rel} _make_pair, crossfold_records, _disjoint_samples; `makeSplitT`, `crossfoldUsersT` ← {urel} _make_split, crossfold_users; source sha256/64 {hashlib.sha256(seg.encode()).hexdigest()[:16]}\n"
             "    - records are list positions of `df`; `perm` is the index array after `rng.shuffle`\n-/\n"
-            "set_option linter.unusedVariables false\nnamespace LK.Gen.SplitC05\nopen LK.Split LK.SplitOps\n\n" + make_pair + "\n" + crossfold + "\n" + disjoint + "\nend LK.Gen.SplitC05\n")
+            "set_option linter.unusedVariables false\nnamespace LK.Gen.SplitC05\nopen LK.Split LK.SplitOps\n\n" + make_pair + "\n" + crossfold + "\n" + disjoint + "\n" + utext + "\nend LK.Gen.SplitC05\n")
 
 if __name__ == "__main__":
     print(translate(sys.argv[1] if len(sys.argv) > 1 else "/repo/src/lenskit"))
